@@ -132,6 +132,11 @@ func (o rop) run(env *ropEnv) (res string, err error) {
 			}
 			it, err := pl.Iterator(true, true, true, preIt)
 			if err != nil {
+				if preIt != nil {
+					// the caller still holds the iterator it handed in: stepping it must return (anything), not panic
+					_, _ = preIt.Next()
+					_, _ = preIt.Advance(3)
+				}
 				return err
 			}
 			env.lastPL, env.lastIt = pl, it
